@@ -1,5 +1,5 @@
 (* WiringP.v — lemmas about Model/Wiring.v (signatures, flipping, create/is_compliant, connect, metadata). *)
-From Coq Require Import ZArith List Bool Lia Arith.
+From Coq Require Import ZArith List Bool Lia Arith Permutation.
 From V.Model Require Import Bits Wiring.
 Import ListNotations.
 Open Scope Z_scope.
@@ -332,4 +332,1089 @@ Proof.
   { destruct (filter is_in_port (tag_from 0 ms)); discriminate. }
   destruct (check_wi _ _ _); [discriminate|].
   destruct (concat_res _) as [new|]; [|discriminate]. inversion H; subst. simpl. eauto.
+Qed.
+
+(* ================================================================== connect: exact characterisation *)
+Definition is_ok {A} (x : res A) : bool := match x with Ok _ => true | Err _ => false end.
+Definition unres {A} (x : res (list A)) : list A := match x with Ok l => l | Err _ => [] end.
+
+Lemma concat_res_iff {A} (l : list (res (list A))) r :
+  concat_res l = Ok r <-> (forall x, In x l -> is_ok x = true) /\ r = flat_map unres l.
+Proof.
+  revert r. induction l as [|x l IH]; simpl; intros r.
+  - split; [intros H; inversion H; split; [intros ? []|reflexivity]|intros [_ ->]; reflexivity].
+  - destruct x as [a|e].
+    + destruct (concat_res l) as [b|e] eqn:E.
+      * destruct (IH b) as [IH1 _]. destruct (IH1 eq_refl) as [Hok Hb]. subst b. split.
+        -- intros H; inversion H; subst. split; [intros x [<-|Hx]; auto|reflexivity].
+        -- intros [_ ->]. reflexivity.
+      * split; [discriminate|]. intros [Hok ->].
+        destruct (IH (flat_map unres l)) as [_ IH2].
+        assert (G : @Err (list A) e = Ok (flat_map unres l)) by (apply IH2; split; auto). discriminate.
+    + split; [discriminate|]. intros [Hok _]. specialize (Hok (Err e) (or_introl eq_refl)). discriminate.
+Qed.
+
+Lemma concat_res_map_iff {A B} (f : A -> res (list B)) l r :
+  concat_res (map f l) = Ok r <-> (forall a, In a l -> is_ok (f a) = true) /\ r = flat_map (fun a => unres (f a)) l.
+Proof.
+  rewrite concat_res_iff. split; intros [H ->]; split.
+  - intros a Ha. apply H. apply in_map. exact Ha.
+  - induction l; simpl; [reflexivity|]. f_equal. apply IHl. intros; apply H; right; auto.
+  - intros x Hx. apply in_map_iff in Hx. destruct Hx as (a & <- & Ha). auto.
+  - induction l; simpl; [reflexivity|]. f_equal. apply IHl. intros; apply H; right; auto.
+Qed.
+
+(* ---- tags ---- *)
+Lemma tag_from_fst k ms : map fst (tag_from k ms) = seq k (length ms).
+Proof. revert k. induction ms; intros k; simpl; [reflexivity|]. rewrite IHms. reflexivity. Qed.
+Lemma tag_from_snd k ms : map snd (tag_from k ms) = ms.
+Proof. revert k. induction ms; intros k; simpl; [reflexivity|]. rewrite IHms. reflexivity. Qed.
+Lemma tag_from_NoDup k ms : NoDup (tag_from k ms).
+Proof. apply (NoDup_map_inv fst). rewrite tag_from_fst. apply seq_NoDup. Qed.
+Lemma in_tag_from k ms h m : In (h, m) (tag_from k ms) <-> (k <= h)%nat /\ nth_error ms (h - k) = Some m.
+Proof.
+  revert k. induction ms as [|a ms IH]; intros k; simpl.
+  - split; [intros []|]. intros [_ H]. destruct (h - k)%nat; discriminate.
+  - rewrite IH. split.
+    + intros [E|[Hk Hn]].
+      * inversion E; subst. split; [lia|]. rewrite Nat.sub_diag. reflexivity.
+      * split; [lia|]. replace (h - k)%nat with (S (h - S k)) by lia. exact Hn.
+    + intros [Hk Hn]. destruct (h - k)%nat as [|j] eqn:Ej.
+      * left. inversion Hn; subst. f_equal. lia.
+      * right. split; [lia|]. replace (h - S k)%nat with j by lia. exact Hn.
+Qed.
+Lemma in_tag_snd k ms t : In t (tag_from k ms) -> In (snd t) ms.
+Proof. intros H. rewrite <- (tag_from_snd k ms). apply in_map. exact H. Qed.
+Lemma in_snd_tag k ms m : In m ms -> exists h, In (h, m) (tag_from k ms).
+Proof.
+  intros H. rewrite <- (tag_from_snd k ms) in H. apply in_map_iff in H. destruct H as ([h m'] & <- & H). eauto.
+Qed.
+
+Lemma kind_cases t : (is_sig_kind t = true /\ is_in_port t = false /\ is_out_port t = false) \/
+                     (is_sig_kind t = false /\ is_in_port t = true /\ is_out_port t = false) \/
+                     (is_sig_kind t = false /\ is_in_port t = false /\ is_out_port t = true).
+Proof.
+  unfold is_sig_kind, is_in_port, is_out_port, m_is_iface. destruct (m_is_port (snd t)), (is_in (m_flow (snd t))); simpl; auto.
+Qed.
+
+Lemma filter_nil_iff {A} (f : A -> bool) l : filter f l = [] <-> forall a, In a l -> f a = false.
+Proof.
+  induction l; simpl; [split; auto; intros _ ? []|]. destruct (f a) eqn:E.
+  - split; [discriminate|]. intros H. specialize (H a (or_introl eq_refl)). congruence.
+  - rewrite IHl. split; intros H b; [intros [<-|Hb]; auto|auto].
+Qed.
+
+Lemma at_most_one {A} (l : list A) : NoDup l -> (forall a b, In a l -> In b l -> a = b) -> l = [] \/ exists o, l = [o].
+Proof.
+  intros Hn H. destruct l as [|a [|b r]]; [auto|right; eauto|exfalso].
+  assert (a = b) by (apply H; simpl; auto). subst. inversion Hn; subst. apply H2. simpl; auto.
+Qed.
+
+Definition uniform_wi (ms : list member) : Prop :=
+  forall m m', In m ms -> In m' ms -> width (m_shape m) = width (m_shape m') /\ m_init m = m_init m'.
+
+Lemma check_wi_none w0 i0 l :
+  check_wi w0 i0 l = None <-> forall t, In t l -> width (m_shape (snd t)) = w0 /\ m_init (snd t) = i0.
+Proof.
+  induction l as [|[h m] l IH]; simpl; [split; auto; intros _ ? []|].
+  destruct (w0 =? width (m_shape m)) eqn:Ew; simpl.
+  - destruct (i0 =? m_init m) eqn:Ei; simpl.
+    + rewrite IH. apply Z.eqb_eq in Ew, Ei. split; intros H t; [intros [<-|Ht]; simpl; auto|auto].
+    + split; [discriminate|]. intros H. destruct (H (h, m) (or_introl eq_refl)) as [_ E]. simpl in E.
+      apply Z.eqb_neq in Ei. congruence.
+  - split; [discriminate|]. intros H. destruct (H (h, m) (or_introl eq_refl)) as [E _]. simpl in E.
+    apply Z.eqb_neq in Ew. congruence.
+Qed.
+
+Section Row.
+  Variable objs : list obj.
+  Variable p : list Z.
+  Variable ms : list member.
+  Let t := tag_from 0 ms.
+  Let outs := filter is_out_port t.
+  Let ins := filter is_in_port t.
+  Let sigs := filter is_sig_kind t.
+
+  Definition row_asgs_ : list asg :=
+    match outs with [o] => flat_map (fun i => unres (connect_in objs p o i)) ins | _ => [] end.
+
+  Definition row_ok_ : Prop :=
+    (Forall (fun m => m_is_iface m = true) ms \/ Forall (fun m => m_is_port m = true) ms) /\
+    uniform_wi ms /\
+    (forall o o', In o outs -> In o' outs -> o = o') /\
+    (forall o i, In o outs -> In i ins -> is_ok (connect_in objs p o i) = true).
+
+  Lemma step_iff cs ai ao st' :
+    step objs p ms (cs, ai, ao) = Ok st' <->
+    row_ok_ /\ st' = (cs ++ row_asgs_, ai || nonempty ins, ao || nonempty outs).
+  Proof.
+    unfold step, row_ok_, row_asgs_. fold t. fold outs ins sigs.
+    assert (Hpart : forall x, In x t -> In x sigs \/ In x ins \/ In x outs).
+    { intros x Hx. unfold sigs, ins, outs. rewrite !filter_In. destruct (kind_cases x) as [(a&b&c)|[(a&b&c)|(a&b&c)]]; auto. }
+    assert (Hnd : NoDup outs) by (apply NoDup_filter, tag_from_NoDup).
+    destruct sigs as [|s0 sr] eqn:Es.
+    - (* only ports *)
+      cbn [nonempty andb].
+      assert (Hport : Forall (fun m => m_is_port m = true) ms).
+      { apply Forall_forall. intros m Hm. destruct (in_snd_tag 0 ms m Hm) as [h Hh].
+        assert (Hf : is_sig_kind (h, m) = false).
+        { assert (E : filter is_sig_kind t = []) by exact Es. rewrite filter_nil_iff in E. apply E. exact Hh. }
+        unfold is_sig_kind, m_is_iface in Hf. simpl in Hf. destruct (m_is_port m); auto. }
+      assert (Hall : forall m, In m ms -> exists x, In x (ins ++ outs) /\ snd x = m).
+      { intros m Hm. destruct (in_snd_tag 0 ms m Hm) as [h Hh]. exists (h, m). split; [|reflexivity].
+        apply in_or_app. destruct (Hpart _ Hh) as [[]|[H|H]]; auto. }
+      assert (Hsub : forall x, In x (ins ++ outs) -> In (snd x) ms).
+      { intros x Hx. apply in_app_or in Hx. unfold ins, outs in Hx. rewrite !filter_In in Hx.
+        apply (in_tag_snd 0). tauto. }
+      destruct (ins ++ outs) as [|[h0 m0] r] eqn:El.
+      + (* no member at all *)
+        assert (Hms : ms = []). { destruct ms as [|m ?]; [reflexivity|]. destruct (Hall m (or_introl eq_refl)) as (x & [] & _). }
+        apply app_eq_nil in El. destruct El as [Ei Eo]. rewrite Ei, Eo. cbn [nonempty].
+        rewrite app_nil_r. split.
+        * intros H; inversion H; subst. split; [|reflexivity].
+          split; [right; constructor|]. split; [intros ? ? []|]. split; intros ? ? [].
+        * intros [_ ->]. reflexivity.
+      + destruct (check_wi (width (m_shape m0)) (m_init m0) r) as [e|] eqn:Ec.
+        * split; [discriminate|]. intros [(_ & Hu & _) _]. exfalso.
+          assert (check_wi (width (m_shape m0)) (m_init m0) r = None); [|congruence].
+          apply check_wi_none. intros x Hx.
+          assert (In (snd x) ms) by (apply Hsub; right; exact Hx).
+          assert (In m0 ms) by (apply (Hsub (h0, m0)); left; reflexivity).
+          destruct (Hu (snd x) m0); auto.
+        * rewrite check_wi_none in Ec.
+          assert (Hu : uniform_wi ms).
+          { intros m m' Hm Hm'.
+            assert (G : forall m, In m ms -> width (m_shape m) = width (m_shape m0) /\ m_init m = m_init m0).
+            { intros m1 H1. destruct (Hall m1 H1) as (x & [<-|Hx] & <-); [simpl; auto|apply Ec; exact Hx]. }
+            destruct (G m Hm), (G m' Hm'). split; congruence. }
+          destruct outs as [|o [|o2 r2]] eqn:Eo.
+          -- cbn [nonempty]. rewrite app_nil_r. split.
+             ++ intros H; inversion H; subst. split; [|reflexivity].
+                split; [right; exact Hport|]. split; [exact Hu|]. split; intros ? ? [].
+             ++ intros [_ ->]. reflexivity.
+          -- cbn [nonempty].
+             destruct (concat_res (map (connect_in objs p o) ins)) as [new|e] eqn:En.
+             ++ apply concat_res_map_iff in En. destruct En as [Hok ->]. split.
+                ** intros H; inversion H; subst. split; [|reflexivity].
+                   split; [right; exact Hport|]. split; [exact Hu|]. split.
+                   --- intros a b [<-|[]] [<-|[]]. reflexivity.
+                   --- intros a i [<-|[]] Hi. apply Hok. exact Hi.
+                ** intros [_ ->]. reflexivity.
+             ++ split; [discriminate|]. intros [(_ & _ & _ & Hok) _]. exfalso.
+                assert (G : exists r', concat_res (map (connect_in objs p o) ins) = Ok r').
+                { eexists. apply concat_res_map_iff. split; [|reflexivity]. intros i Hi. apply Hok; simpl; auto. }
+                destruct G as [r' G]. congruence.
+          -- split; [discriminate|]. intros [(_ & _ & H1 & _) _]. exfalso.
+             assert (o = o2) by (apply H1; simpl; auto). subst. inversion Hnd; subst. apply H2. simpl; auto.
+    - (* some interface member *)
+      cbn [nonempty andb].
+      assert (Hs0 : In s0 t /\ is_sig_kind s0 = true).
+      { apply filter_In. fold sigs. rewrite Es. left; reflexivity. }
+      destruct (nonempty outs || nonempty ins) eqn:En.
+      + split; [discriminate|]. intros [([Hi|Hp] & _) _]; exfalso.
+        * assert (exists x, In x t /\ is_sig_kind x = false) as (x & Hx & Hk).
+          { destruct outs as [|x ?] eqn:Eo.
+            - destruct ins as [|x ?] eqn:Ei; [discriminate|].
+              assert (G : In x ins) by (rewrite Ei; left; reflexivity). unfold ins in G. rewrite filter_In in G.
+              exists x. split; [tauto|]. destruct (kind_cases x) as [(a&b&c)|[(a&b&c)|(a&b&c)]]; auto. destruct G; congruence.
+            - assert (G : In x outs) by (rewrite Eo; left; reflexivity). unfold outs in G. rewrite filter_In in G.
+              exists x. split; [tauto|]. destruct (kind_cases x) as [(a&b&c)|[(a&b&c)|(a&b&c)]]; auto. destruct G; congruence. }
+          rewrite Forall_forall in Hi. specialize (Hi _ (in_tag_snd 0 ms x Hx)). unfold is_sig_kind in Hk. congruence.
+        * destruct Hs0 as [Hs0 Hk]. rewrite Forall_forall in Hp. specialize (Hp _ (in_tag_snd 0 ms s0 Hs0)).
+          unfold is_sig_kind, m_is_iface in Hk. rewrite Hp in Hk. discriminate.
+      + apply orb_false_elim in En. destruct En as [Eo Ei].
+        destruct outs as [|? ?] eqn:Eo'; [|discriminate]. destruct ins as [|? ?] eqn:Ei'; [|discriminate].
+        cbn [nonempty]. rewrite app_nil_r, !orb_false_r. split.
+        * intros H; inversion H; subst. split; [|reflexivity]. split.
+          -- left. apply Forall_forall. intros m Hm. destruct (in_snd_tag 0 ms m Hm) as [h Hh].
+             destruct (Hpart _ Hh) as [H1|[[]|[]]]. rewrite <- Es in H1. unfold sigs in H1. apply filter_In in H1. tauto.
+          -- split.
+             ++ intros m m' Hm Hm'.
+                assert (G : forall m, In m ms -> m_is_iface m = true).
+                { intros m1 H1. destruct (in_snd_tag 0 ms m1 H1) as [h Hh].
+                  destruct (Hpart _ Hh) as [H2|[[]|[]]]. rewrite <- Es in H2. unfold sigs in H2. apply filter_In in H2. tauto. }
+                specialize (G m Hm) as G1. specialize (G m' Hm') as G2. destruct m, m'; try discriminate. simpl. auto.
+             ++ split; intros ? ? [].
+        * intros [_ ->]. reflexivity.
+  Qed.
+End Row.
+
+(* ---- the lock-step loop = transposition of the sorted lists + one step per row ---- *)
+Definition row := (list Z * list member)%type.
+Definition row_ok (objs : list obj) (r : row) : Prop := row_ok_ objs (fst r) (snd r).
+Definition row_asgs (objs : list obj) (r : row) : list asg := row_asgs_ objs (fst r) (snd r).
+Definition row_has_in (r : row) : bool := nonempty (filter is_in_port (tag_from 0 (snd r))).
+Definition row_has_out (r : row) : bool := nonempty (filter is_out_port (tag_from 0 (snd r))).
+
+Fixpoint transpose (f0 : list entry) (rest : list (list entry)) : option (list row) :=
+  match f0 with
+  | [] => if forallb is_nil rest then Some [] else None
+  | (p, m) :: t0 =>
+      match heads p rest with
+      | None => None
+      | Some (hs, tails) =>
+          match transpose t0 tails with Some r => Some ((p, m :: hs) :: r) | None => None end
+      end
+  end.
+
+Fixpoint fold_steps (objs : list obj) (rows : list row) (st : state) : res state :=
+  match rows with
+  | [] => Ok st
+  | r :: rs => match step objs (fst r) (snd r) st with Ok st' => fold_steps objs rs st' | Err e => Err e end
+  end.
+
+Lemma conn_loop_iff objs f0 : forall rest st st',
+  conn_loop objs f0 rest st = Ok st' <->
+  exists rows, transpose f0 rest = Some rows /\ fold_steps objs rows st = Ok st'.
+Proof.
+  induction f0 as [|[p m] t0 IH]; intros rest st st'; simpl.
+  - destruct (forallb is_nil rest).
+    + split; [intros H; exists []; auto|intros (rows & H1 & H2); inversion H1; subst; exact H2].
+    + split; [discriminate|intros (rows & H1 & _); discriminate].
+  - destruct (heads p rest) as [[hs tails]|]; [|split; [discriminate|intros (rows & H1 & _); discriminate]].
+    destruct (step objs p (m :: hs) st) as [st1|e] eqn:Es.
+    + rewrite IH. split.
+      * intros (rows & H1 & H2). exists ((p, m :: hs) :: rows). rewrite H1. split; [reflexivity|]. simpl. rewrite Es. exact H2.
+      * intros (rows & H1 & H2). destruct (transpose t0 tails) as [r|]; [|discriminate]. inversion H1; subst.
+        exists r. split; [reflexivity|]. simpl in H2. rewrite Es in H2. exact H2.
+    + split; [discriminate|]. intros (rows & H1 & H2). destruct (transpose t0 tails) as [r|]; [|discriminate].
+      inversion H1; subst. simpl in H2. rewrite Es in H2. discriminate.
+Qed.
+
+Lemma fold_steps_iff objs rows : forall cs ai ao st',
+  fold_steps objs rows (cs, ai, ao) = Ok st' <->
+  Forall (row_ok objs) rows /\
+  st' = (cs ++ flat_map (row_asgs objs) rows, ai || existsb row_has_in rows, ao || existsb row_has_out rows).
+Proof.
+  induction rows as [|r rs IH]; intros cs ai ao st'; simpl.
+  - rewrite app_nil_r, !orb_false_r. split; [intros H; inversion H; auto|intros [_ ->]; reflexivity].
+  - destruct (step objs (fst r) (snd r) (cs, ai, ao)) as [st1|e] eqn:Es.
+    + apply step_iff in Es. destruct Es as [Hr ->]. rewrite IH. rewrite <- app_assoc, <- !orb_assoc. split.
+      * intros [H1 ->]. split; [constructor; auto|reflexivity].
+      * intros [H1 ->]. inversion H1; subst. split; auto.
+    + split; [discriminate|]. intros [H1 _]. inversion H1; subst. exfalso.
+      assert (G : exists s, step objs (fst r) (snd r) (cs, ai, ao) = Ok s) by (eexists; apply step_iff; split; [exact H2|reflexivity]).
+      destruct G as [s G]. congruence.
+Qed.
+
+Definition sorted_lists (sigs : list sigt) : list (list entry) := map (fun x => sort (flat_members x)) sigs.
+Definition rows_of (sigs : list sigt) : option (list row) :=
+  match sorted_lists sigs with [] => Some [] | f0 :: rest => transpose f0 rest end.
+
+(* connect succeeds exactly when: the sorted member lists line up (no member missing anywhere), every row is
+   acceptable, and not (nothing connected although inputs but no output were seen) *)
+Theorem connect_sigs_iff objs sigs cs : (2 <= length sigs)%nat ->
+  connect_sigs objs sigs = Ok cs <->
+  exists rows, rows_of sigs = Some rows /\ Forall (row_ok objs) rows /\ cs = flat_map (row_asgs objs) rows /\
+               (is_nil cs && existsb row_has_in rows && negb (existsb row_has_out rows)) = false.
+Proof.
+  intros Hlen. unfold connect_sigs, rows_of, sorted_lists.
+  destruct sigs as [|x0 [|x1 xs]]; simpl in Hlen; try lia. cbn [map].
+  set (f0 := sort (flat_members x0)). set (rest := sort (flat_members x1) :: map _ xs).
+  destruct (conn_loop objs f0 rest ([], false, false)) as [[[cs' ai] ao]|e] eqn:E.
+  - apply conn_loop_iff in E. destruct E as (rows & Ht & Hf). apply fold_steps_iff in Hf. destruct Hf as [Hok Hst].
+    inversion Hst; subst. simpl. split.
+    + destruct (is_nil _ && _ && _) eqn:Eb; [discriminate|]. intros H; inversion H; subst.
+      exists rows. repeat split; auto.
+    + intros (rows' & Ht' & _ & -> & Hb). rewrite Ht in Ht'. inversion Ht'; subst. rewrite Hb. reflexivity.
+  - split; [discriminate|]. intros (rows & Ht & Hok & _ & _). exfalso.
+    assert (G : exists s, conn_loop objs f0 rest ([], false, false) = Ok s).
+    { eexists. apply conn_loop_iff. exists rows. split; [exact Ht|]. apply fold_steps_iff. split; [exact Hok|reflexivity]. }
+    destruct G as [s G]. congruence.
+Qed.
+
+(* ---- transposition: column h of the rows is the h-th sorted list ---- *)
+Lemma path_cmp_eq a : forall b, path_cmp a b = Eq -> a = b.
+Proof.
+  induction a as [|x a IH]; intros [|y b]; simpl; try discriminate; auto.
+  destruct (x ?= y) eqn:E; try discriminate. intros H. apply Z.compare_eq in E. subst. f_equal. auto.
+Qed.
+Lemma path_eqb_eq a b : path_eqb a b = true -> a = b.
+Proof. unfold path_eqb. destruct (path_cmp a b) eqn:E; try discriminate. intros _. apply path_cmp_eq; auto. Qed.
+
+Lemma heads_nth p rest : forall hs tails, heads p rest = Some (hs, tails) ->
+  length hs = length rest /\ length tails = length rest /\
+  forall h l, nth_error rest h = Some l ->
+    exists m t, l = (p, m) :: t /\ nth_error hs h = Some m /\ nth_error tails h = Some t.
+Proof.
+  induction rest as [|l0 rest IH]; intros hs tails H; simpl in H.
+  - inversion H; subst. repeat split; auto. intros [|h] l; discriminate.
+  - destruct l0 as [|[q m] t]; [discriminate|]. destruct (path_eqb p q) eqn:E; [|discriminate].
+    apply path_eqb_eq in E. subst q. destruct (heads p rest) as [[hs' ts']|]; [|discriminate].
+    inversion H; subst. destruct (IH hs' ts' eq_refl) as (L1 & L2 & IH'). simpl. repeat split; auto.
+    intros [|h] l Hl; simpl in *.
+    + inversion Hl; subst. eauto.
+    + apply IH'. exact Hl.
+Qed.
+
+Definition col (h : nat) (rows : list row) (l : list entry) : Prop :=
+  Forall2 (fun r e => fst e = fst r /\ nth_error (snd r) h = Some (snd e)) rows l.
+
+Lemma transpose_col f0 : forall rest rows, transpose f0 rest = Some rows ->
+  Forall (fun r => length (snd r) = S (length rest)) rows /\
+  forall h l, nth_error (f0 :: rest) h = Some l -> col h rows l.
+Proof.
+  induction f0 as [|[p m] t0 IH]; intros rest rows H; simpl in H.
+  - destruct (forallb is_nil rest) eqn:E; [|discriminate]. inversion H; subst. split; [constructor|].
+    intros [|h] l Hl; simpl in Hl.
+    + inversion Hl. constructor.
+    + rewrite forallb_forall in E. apply nth_error_In in Hl. specialize (E _ Hl). destruct l; [constructor|discriminate].
+  - destruct (heads p rest) as [[hs tails]|] eqn:Eh; [|discriminate].
+    destruct (transpose t0 tails) as [r|] eqn:Et; [|discriminate]. inversion H; subst.
+    destruct (heads_nth _ _ _ _ Eh) as (L1 & L2 & Hn). destruct (IH _ _ Et) as [Hlen Hc]. split.
+    + constructor; [simpl; congruence|]. rewrite L2 in Hlen. exact Hlen.
+    + intros [|h] l Hl; simpl in Hl.
+      * inversion Hl; subst. constructor; [simpl; auto|]. apply (Hc 0%nat). reflexivity.
+      * destruct (Hn _ _ Hl) as (m' & t & -> & H1 & H2). constructor; [simpl; auto|]. apply (Hc (S h)). exact H2.
+Qed.
+
+Lemma transpose_some f0 : forall rest, Forall (fun l => map fst l = map fst f0) rest -> exists rows, transpose f0 rest = Some rows.
+Proof.
+  induction f0 as [|[p m] t0 IH]; intros rest H; cbn [transpose].
+  - assert (E : forallb (@is_nil entry) rest = true).
+    { apply forallb_forall. intros l Hl. rewrite Forall_forall in H. specialize (H _ Hl). destruct l; [reflexivity|discriminate]. }
+    exists []. rewrite E. reflexivity.
+  - assert (G : exists hs tails, heads p rest = Some (hs, tails) /\ Forall (fun l => map fst l = map fst t0) tails).
+    { induction rest as [|l rest IHr]; simpl; [exists [], []; auto|].
+      inversion H as [|? ? H2 H3]; subst. destruct l as [|[q m'] t]; [discriminate|]. simpl in H2. injection H2 as Hq Ht0. subst q.
+      rewrite path_eqb_refl. destruct (IHr H3) as (hs & tails & Eh & Ht). exists (m' :: hs), (t :: tails). rewrite Eh. split; [reflexivity|constructor; auto]. }
+    destruct G as (hs & tails & Eh & Ht). destruct (IH _ Ht) as [rows Er]. exists ((p, m :: hs) :: rows). rewrite Eh, Er. reflexivity.
+Qed.
+
+Lemma transpose_aligned f0 : forall rest rows, transpose f0 rest = Some rows -> Forall (fun l => map fst l = map fst f0) rest.
+Proof.
+  intros rest rows H. apply Forall_forall. intros l Hl. apply In_nth_error in Hl. destruct Hl as [h Hh].
+  destruct (transpose_col _ _ _ H) as [_ Hc].
+  assert (C0 := Hc 0%nat f0 eq_refl). assert (Ch := Hc (S h) l Hh).
+  assert (G : forall h l, col h rows l -> map fst l = map fst rows).
+  { clear. intros h l Hc. induction Hc; simpl; [reflexivity|]. destruct H as [-> _]. f_equal. exact IHHc. }
+  rewrite (G _ _ C0), (G _ _ Ch). reflexivity.
+Qed.
+
+Lemma Forall2_in_l {A B} (R : A -> B -> Prop) l l' a : Forall2 R l l' -> In a l -> exists b, In b l' /\ R a b.
+Proof. induction 1; intros []; [subst; eexists; split; [left; reflexivity|auto]|]. destruct (IHForall2 H1) as (b & Hb & Hr). eauto using in_cons. Qed.
+Lemma Forall2_in_r {A B} (R : A -> B -> Prop) l l' b : Forall2 R l l' -> In b l' -> exists a, In a l /\ R a b.
+Proof. induction 1; intros []; [subst; eexists; split; [left; reflexivity|auto]|]. destruct (IHForall2 H1) as (a & Ha & Hr). eauto using in_cons. Qed.
+
+(* ---- sort is a permutation ---- *)
+Lemma insert_perm {A} (e : list Z * A) l : Permutation (insert e l) (e :: l).
+Proof.
+  induction l as [|h t IH]; simpl; [reflexivity|]. destruct (path_leb (fst e) (fst h)); [reflexivity|].
+  rewrite IH. apply perm_swap.
+Qed.
+Lemma sort_perm {A} (l : list (list Z * A)) : Permutation (sort l) l.
+Proof. induction l; simpl; [reflexivity|]. rewrite insert_perm. constructor. exact IHl. Qed.
+Lemma in_sort {A} (l : list (list Z * A)) e : In e (sort l) <-> In e l.
+Proof. split; apply Permutation_in; [|symmetry]; apply sort_perm. Qed.
+
+(* ---- member paths of a signature are pairwise distinct (dict keys distinct at each level) ---- *)
+Lemma NoDup_app_intro {A} (l l' : list A) :
+  NoDup l -> NoDup l' -> (forall x, In x l -> In x l' -> False) -> NoDup (l ++ l').
+Proof.
+  induction l as [|a l IH]; simpl; intros H1 H2 H3; [exact H2|]. inversion H1; subst. constructor.
+  - intros Hin. apply in_app_or in Hin. destruct Hin; [contradiction|]. apply (H3 a); auto.
+  - apply IH; auto. intros x Hx Hx'. apply (H3 x); auto.
+Qed.
+
+Lemma NoDup_flat_map_intro {A B} (F : A -> list B) l :
+  NoDup l -> (forall a, In a l -> NoDup (F a)) ->
+  (forall a b x, In a l -> In b l -> In x (F a) -> In x (F b) -> a = b) -> NoDup (flat_map F l).
+Proof.
+  induction l as [|a l IH]; simpl; intros H1 H2 H3; [constructor|]. inversion H1; subst.
+  apply NoDup_app_intro; [apply H2; auto|apply IH; auto|].
+  - intros a' b x Ha Hb. apply H3; auto.
+  - intros x Hx Hx'. apply in_flat_map in Hx'. destruct Hx' as (b & Hb & Hxb).
+    assert (a = b) by (apply (H3 a b x); auto). subst. contradiction.
+Qed.
+
+Lemma map_fst_flat_map {A B C} (F : A -> list (B * C)) l : map fst (flat_map F l) = flat_map (fun a => map fst (F a)) l.
+Proof. apply map_flat_map. Qed.
+
+Lemma flat_m_prefix m : forall fl pre n q m', In (q, m') (flat_m fl pre n m) -> exists s, q = pre ++ n :: s.
+Proof.
+  induction m as [f sh i d | f w ms d IH] using member_ind2; intros fl pre n q m' H.
+  - simpl in H. destruct H as [H|[]]. inversion H. exists []. reflexivity.
+  - cbn [flat_m] in H. destruct H as [H|H].
+    + inversion H. exists []. reflexivity.
+    + apply in_flat_map in H. destruct H as ([n' mm] & Hin & H). rewrite Forall_forall in IH.
+      destruct (IH _ Hin _ _ _ _ _ H) as [s ->]. exists (n' :: s). rewrite <- app_assoc. reflexivity.
+Qed.
+
+Lemma nodupb_NoDup l : nodupb l = true -> NoDup l.
+Proof.
+  induction l as [|a l IH]; simpl; intros H; [constructor|]. apply andb_prop in H. destruct H as [H1 H2].
+  constructor; [|auto]. intros Hin. apply negb_true_iff in H1.
+  assert (existsb (Z.eqb a) l = true); [|congruence]. apply existsb_exists. exists a. split; [auto|apply Z.eqb_refl].
+Qed.
+
+Lemma flat_ms_nodup fl pre ms :
+  nodupb (map fst ms) = true ->
+  (forall nm, In nm ms -> forall fl pre n, NoDup (map fst (flat_m fl pre n (snd nm)))) ->
+  NoDup (map fst (flat_ms fl pre ms)).
+Proof.
+  intros Hn Hm. unfold flat_ms, entry. rewrite (map_flat_map fst). apply nodupb_NoDup in Hn.
+  apply NoDup_flat_map_intro.
+  - apply (NoDup_map_inv fst). exact Hn.
+  - intros a Ha. apply Hm. exact Ha.
+  - intros [na ma] [nb mb] x Ha Hb Hxa Hxb. cbn [fst snd] in *.
+    apply in_map_iff in Hxa. destruct Hxa as ([qa ea] & <- & Hqa). apply in_map_iff in Hxb. destruct Hxb as ([qb eb] & E & Hqb).
+    cbn [fst] in E. subst qb.
+    destruct (flat_m_prefix _ _ _ _ _ _ Hqa) as [sa Ea]. destruct (flat_m_prefix _ _ _ _ _ _ Hqb) as [sb Eb].
+    rewrite Ea in Eb. apply app_inv_head in Eb. inversion Eb; subst nb.
+    (* same name -> same pair, by NoDup of names *)
+    clear - Hn Ha Hb. induction ms as [|[k v] ms IH]; [destruct Ha|]. simpl in Hn. inversion Hn; subst.
+    destruct Ha as [Ea|Ha], Hb as [Eb|Hb].
+    + congruence.
+    + inversion Ea; subst. exfalso. apply H1. apply in_map_iff. exists (na, mb). auto.
+    + inversion Eb; subst. exfalso. apply H1. apply in_map_iff. exists (na, ma). auto.
+    + apply IH; auto.
+Qed.
+
+Lemma flat_m_nodup m : forall fl pre n, names_ok m = true -> NoDup (map fst (flat_m fl pre n m)).
+Proof.
+  induction m as [f sh i d | f w ms d IH] using member_ind2; intros fl pre n Hn.
+  - simpl. constructor; [intros []|constructor].
+  - cbn [flat_m map fst]. cbn [names_ok] in Hn. apply andb_prop in Hn. destruct Hn as [Hn1 Hn2].
+    rewrite forallb_forall in Hn2. rewrite Forall_forall in IH. constructor.
+    + intros Hin. apply in_map_iff in Hin. destruct Hin as ([q e] & E & Hin). cbn [fst] in E. subst q.
+      apply in_flat_map in Hin. destruct Hin as ([n' mm] & _ & Hin).
+      destruct (flat_m_prefix _ _ _ _ _ _ Hin) as [s Es]. rewrite <- app_assoc in Es.
+      apply app_inv_head in Es. discriminate.
+    + apply (flat_ms_nodup (sub_flag fl f w) (pre ++ [n]) ms Hn1).
+      intros nm Hnm fl' pre' n'. apply IH; auto.
+Qed.
+
+Lemma flat_members_nodup x : names_ok (top x) = true -> NoDup (map fst (flat_members x)).
+Proof.
+  intros H. cbn [top names_ok] in H. apply andb_prop in H. destruct H as [H1 H2]. rewrite forallb_forall in H2.
+  apply flat_ms_nodup; [exact H1|]. intros nm Hnm fl pre n. apply flat_m_nodup. auto.
+Qed.
+
+Lemma sorted_nodup x : names_ok (top x) = true -> NoDup (map fst (sort (flat_members x))).
+Proof.
+  intros H. eapply Permutation_NoDup; [|apply flat_members_nodup; exact H].
+  apply Permutation_map. symmetry. apply sort_perm.
+Qed.
+
+Lemma NoDup_fst_inj {A B} (l : list (A * B)) a b : NoDup (map fst l) -> In a l -> In b l -> fst a = fst b -> a = b.
+Proof.
+  induction l as [|x l IH]; simpl; intros Hn Ha Hb E; [destruct Ha|]. inversion Hn; subst.
+  destruct Ha as [<-|Ha], Hb as [<-|Hb]; auto.
+  - exfalso. apply H1. rewrite E. apply in_map. exact Hb.
+  - exfalso. apply H1. rewrite <- E. apply in_map. exact Ha.
+Qed.
+
+(* ---- what one port connection contributes ---- *)
+Definition is_sigr (r : res obj) : bool := match r with Ok (OSig _ _ _) => true | _ => false end.
+Definition PNs (p : list Z) : path := map PN p.
+
+Lemma connect_value_unres objs ip op :
+  is_ok (connect_value objs ip op) = true ->
+  unres (connect_value objs ip op) = if is_sigr (traverse objs ip) then [(ip, op)] else [].
+Proof.
+  unfold connect_value. destruct (traverse objs ip) as [iv|]; [|discriminate].
+  destruct (traverse objs op) as [ov|]; [|discriminate].
+  destruct iv; try discriminate; simpl; auto.
+  destruct ov; try discriminate. destruct (v =? v0); [reflexivity|discriminate].
+Qed.
+
+Lemma dims_eqb_eq a : forall b, dims_eqb a b = true -> a = b.
+Proof.
+  induction a as [|x a IH]; intros [|y b]; simpl; try discriminate; auto.
+  intros H. apply andb_prop in H. destruct H as [H1 H2]. apply Nat.eqb_eq in H1. subst. f_equal. auto.
+Qed.
+
+Lemma connect_in_unres objs p o i :
+  is_ok (connect_in objs p o i) = true ->
+  m_dims (snd o) = m_dims (snd i) /\
+  unres (connect_in objs p o i) =
+    flat_map (fun idx => if is_sigr (traverse objs (fst i, PNs p ++ idx))
+                         then [((fst i, PNs p ++ idx), (fst o, PNs p ++ idx))] else [])
+             (idx_paths (m_dims (snd o))).
+Proof.
+  unfold connect_in. destruct (dims_eqb _ _) eqn:Ed; [|discriminate]. intros H. split; [apply dims_eqb_eq; exact Ed|].
+  destruct (concat_res _) as [r|] eqn:E; [|discriminate]. apply concat_res_map_iff in E. destruct E as [Hok ->].
+  simpl. apply flat_map_ext_Forall with (P := fun idx => In idx (idx_paths (m_dims (snd o)))).
+  - apply Forall_forall. auto.
+  - intros idx Hidx. apply connect_value_unres. apply Hok. exact Hidx.
+Qed.
+
+Definition is_pi (i : item) : bool := match i with PI _ => true | PN _ => false end.
+
+Lemma idx_paths_pi d : forall idx, In idx (idx_paths d) -> forallb is_pi idx = true.
+Proof.
+  induction d as [|n d IH]; simpl; intros idx H.
+  - destruct H as [<-|[]]. reflexivity.
+  - apply in_flat_map in H. destruct H as (k & _ & H). apply in_map_iff in H. destruct H as (r & <- & Hr). simpl. auto.
+Qed.
+
+Lemma NoDup_map_inj {A B} (f : A -> B) l : (forall a b, f a = f b -> a = b) -> NoDup l -> NoDup (map f l).
+Proof.
+  intros Hinj. induction 1; simpl; constructor; auto. intros Hin. apply in_map_iff in Hin.
+  destruct Hin as (y & E & Hy). apply Hinj in E. subst. contradiction.
+Qed.
+
+Lemma idx_paths_nodup d : NoDup (idx_paths d).
+Proof.
+  induction d as [|n d IH]; simpl; [constructor; [intros []|constructor]|].
+  apply NoDup_flat_map_intro.
+  - apply seq_NoDup.
+  - intros a _. apply NoDup_map_inj; [|exact IH]. intros x y E. inversion E. reflexivity.
+  - intros a b x _ _ Ha Hb. apply in_map_iff in Ha. destruct Ha as (r & <- & _).
+    apply in_map_iff in Hb. destruct Hb as (r' & E & _). inversion E. reflexivity.
+Qed.
+
+Lemma pn_pi_split p : forall p' idx idx', PNs p ++ idx = PNs p' ++ idx' ->
+  forallb is_pi idx = true -> forallb is_pi idx' = true -> p = p' /\ idx = idx'.
+Proof.
+  induction p as [|a p IH]; intros [|b p'] idx idx' E H1 H2; simpl in E.
+  - auto.
+  - subst idx. simpl in H1. discriminate.
+  - subst idx'. simpl in H2. discriminate.
+  - inversion E; subst. destruct (IH _ _ _ H3 H1 H2) as [-> ->]. auto.
+Qed.
+
+(* ================================================================== connect: leaf-level specification *)
+Lemma col_fst h rows l : col h rows l -> map fst l = map fst rows.
+Proof. intros Hc. induction Hc; simpl; [reflexivity|]. destruct H as [-> _]. f_equal. exact IHHc. Qed.
+
+Lemma nth_error_map_inv {A B} (f : A -> B) l n y :
+  nth_error (map f l) n = Some y -> exists x, nth_error l n = Some x /\ y = f x.
+Proof.
+  revert n. induction l as [|a l IH]; intros [|n]; simpl; try discriminate.
+  - intros H; inversion H; eauto.
+  - apply IH.
+Qed.
+
+Lemma rows_member sigs rows r h m :
+  rows_of sigs = Some rows -> In r rows -> nth_error (snd r) h = Some m ->
+  exists x, nth_error sigs h = Some x /\ In (fst r, m) (flat_members x).
+Proof.
+  unfold rows_of. destruct (sorted_lists sigs) as [|f0 rest] eqn:E; intros Ht Hr Hm.
+  - inversion Ht; subst. destruct Hr.
+  - destruct (transpose_col _ _ _ Ht) as [Hlen Hc]. rewrite Forall_forall in Hlen. specialize (Hlen _ Hr).
+    assert (Hh : (h < length (f0 :: rest))%nat).
+    { simpl. rewrite <- Hlen. apply nth_error_Some. congruence. }
+    destruct (nth_error (f0 :: rest) h) as [l|] eqn:El; [|apply nth_error_None in El; lia].
+    specialize (Hc _ _ El). rewrite <- E in El. unfold sorted_lists in El.
+    apply nth_error_map_inv in El. destruct El as (x & Hx & ->).
+    destruct (Forall2_in_l _ _ _ _ Hc Hr) as ([q m'] & He & Hq & Hn). cbn [fst snd] in *.
+    exists x. split; [exact Hx|]. apply (proj1 (in_sort _ _)) in He. rewrite Hm in Hn. inversion Hn; subst. exact He.
+Qed.
+
+Lemma rows_find sigs rows h x p m :
+  rows_of sigs = Some rows -> nth_error sigs h = Some x -> In (p, m) (flat_members x) ->
+  exists r, In r rows /\ fst r = p /\ nth_error (snd r) h = Some m.
+Proof.
+  unfold rows_of. intros Ht Hx Hin.
+  assert (El : nth_error (sorted_lists sigs) h = Some (sort (flat_members x))).
+  { unfold sorted_lists. exact (map_nth_error (fun x => sort (flat_members x)) h sigs Hx). }
+  destruct (sorted_lists sigs) as [|f0 rest]; [destruct h; discriminate|].
+  destruct (transpose_col _ _ _ Ht) as [_ Hc]. specialize (Hc _ _ El).
+  assert (Hs : In (p, m) (sort (flat_members x))) by (apply in_sort; exact Hin).
+  destruct (Forall2_in_r _ _ _ _ Hc Hs) as (r & Hr & Hq & Hn). cbn [fst snd] in *. eauto.
+Qed.
+
+Lemma rows_nodup sigs rows :
+  rows_of sigs = Some rows -> (forall x, In x sigs -> names_ok (top x) = true) -> NoDup (map fst rows).
+Proof.
+  unfold rows_of, sorted_lists. destruct sigs as [|x0 xs]; simpl; intros Ht Hn.
+  - inversion Ht. constructor.
+  - destruct (transpose_col _ _ _ Ht) as [_ Hc]. specialize (Hc 0%nat _ eq_refl).
+    rewrite <- (col_fst _ _ _ Hc). apply sorted_nodup. apply Hn. left; reflexivity.
+Qed.
+
+Definition asg_at (objs : list obj) (i j : nat) (p : list Z) (idx : path) : asg :=
+  ((i, PNs p ++ idx), (j, PNs p ++ idx)).
+
+Lemma out_port_iff t : is_out_port t = true <-> m_is_port (snd t) = true /\ is_in (m_flow (snd t)) = false.
+Proof. unfold is_out_port. rewrite andb_true_iff, negb_true_iff. tauto. Qed.
+Lemma in_port_iff t : is_in_port t = true <-> m_is_port (snd t) = true /\ is_in (m_flow (snd t)) = true.
+Proof. unfold is_in_port. rewrite andb_true_iff. tauto. Qed.
+
+Lemma in_tags ms h m : In (h, m) (tag_from 0 ms) <-> nth_error ms h = Some m.
+Proof. rewrite in_tag_from, Nat.sub_0_r. split; [tauto|]. intros H; split; [lia|exact H]. Qed.
+
+Lemma row_asgs_mem objs r a : row_ok objs r ->
+  (In a (row_asgs objs r) <->
+   exists i j mi mj idx,
+     nth_error (snd r) i = Some mi /\ m_is_port mi = true /\ is_in (m_flow mi) = true /\
+     nth_error (snd r) j = Some mj /\ m_is_port mj = true /\ is_in (m_flow mj) = false /\
+     In idx (idx_paths (m_dims mi)) /\ is_sigr (traverse objs (i, PNs (fst r) ++ idx)) = true /\
+     a = asg_at objs i j (fst r) idx).
+Proof.
+  destruct r as [p ms]. unfold row_ok, row_asgs, row_ok_, row_asgs_. cbn [fst snd].
+  set (t := tag_from 0 ms). set (outs := filter is_out_port t). set (ins := filter is_in_port t).
+  intros (_ & _ & Hone & Hokc). split.
+  - intros Ha. destruct outs as [|o [|o2 ro]] eqn:Eo; try destruct Ha.
+    apply in_flat_map in Ha. destruct Ha as ([i mi] & Hi & Ha).
+    assert (Ho : In o outs) by (rewrite Eo; left; reflexivity).
+    destruct (connect_in_unres objs p o (i, mi)) as [Hd Hu]; [apply Hokc; [left; reflexivity|exact Hi]|].
+    rewrite Hu in Ha. apply in_flat_map in Ha. destruct Ha as (idx & Hidx & Ha).
+    destruct (is_sigr _) eqn:Es; [|destruct Ha]. destruct Ha as [<-|[]].
+    destruct o as [j mj]. unfold outs in Ho. apply filter_In in Ho. destruct Ho as [Ho1 Ho2].
+    unfold ins in Hi. apply filter_In in Hi. destruct Hi as [Hi1 Hi2].
+    apply in_tags in Ho1, Hi1. apply out_port_iff in Ho2. apply in_port_iff in Hi2. cbn [fst snd] in *.
+    exists i, j, mi, mj, idx. rewrite <- Hd. tauto.
+  - intros (i & j & mi & mj & idx & Hi & Hip & Hii & Hj & Hjp & Hjo & Hidx & Hs & ->).
+    assert (Hin : In (i, mi) ins).
+    { unfold ins. apply filter_In. split; [apply in_tags; exact Hi|apply in_port_iff; auto]. }
+    assert (Hout : In (j, mj) outs).
+    { unfold outs. apply filter_In. split; [apply in_tags; exact Hj|apply out_port_iff; auto]. }
+    destruct (at_most_one outs) as [E|[o E]]; [apply NoDup_filter, tag_from_NoDup|exact Hone|rewrite E in Hout; destruct Hout|].
+    rewrite E in *. destruct Hout as [->|[]].
+    apply in_flat_map. exists (i, mi). split; [exact Hin|].
+    destruct (connect_in_unres objs p (j, mj) (i, mi)) as [Hd Hu]; [apply Hokc; [left; reflexivity|exact Hin]|].
+    rewrite Hu. apply in_flat_map. exists idx. cbn [fst snd] in *. split; [rewrite Hd; exact Hidx|].
+    rewrite Hs. left. reflexivity.
+Qed.
+
+Lemma row_asgs_keys_nodup objs r : row_ok objs r -> NoDup (map fst (row_asgs objs r)).
+Proof.
+  destruct r as [p ms]. unfold row_ok, row_asgs, row_ok_, row_asgs_. cbn [fst snd].
+  set (t := tag_from 0 ms). set (outs := filter is_out_port t). set (ins := filter is_in_port t).
+  intros (_ & _ & _ & Hokc). destruct outs as [|o [|o2 ro]] eqn:Eo; [constructor| |constructor].
+  rewrite (@map_flat_map tagged asg hpath fst).
+  assert (Hu : forall i, In i ins -> @map asg hpath fst (unres (connect_in objs p o i)) =
+     flat_map (fun idx => if is_sigr (traverse objs (fst i, PNs p ++ idx)) then [(fst i, PNs p ++ idx)] else [])
+              (idx_paths (m_dims (snd o)))).
+  { intros i Hi. destruct (connect_in_unres objs p o i) as [_ ->]; [apply Hokc; [left; reflexivity|exact Hi]|].
+    rewrite (@map_flat_map path asg hpath fst). apply flat_map_ext. intros idx. destruct (is_sigr _); reflexivity. }
+  apply NoDup_flat_map_intro.
+  - apply NoDup_filter, tag_from_NoDup.
+  - intros i Hi. cbv beta. rewrite (Hu i Hi). apply NoDup_flat_map_intro.
+    + apply idx_paths_nodup.
+    + intros idx _. destruct (is_sigr _); constructor; [intros []|constructor].
+    + intros a b x _ _ Ha Hb. destruct (is_sigr (traverse objs (fst i, PNs p ++ a))); [|destruct Ha].
+      destruct (is_sigr (traverse objs (fst i, PNs p ++ b))); [|destruct Hb].
+      destruct Ha as [<-|[]]. destruct Hb as [E|[]]. inversion E. apply app_inv_head in H0. congruence.
+  - intros a b x Ha Hb Hxa Hxb. cbv beta in Hxa, Hxb. rewrite (Hu a Ha) in Hxa. rewrite (Hu b Hb) in Hxb.
+    apply in_flat_map in Hxa. destruct Hxa as (ia & _ & Hxa). apply in_flat_map in Hxb. destruct Hxb as (ib & _ & Hxb).
+    destruct (is_sigr _) in Hxa; [|destruct Hxa]. destruct (is_sigr _) in Hxb; [|destruct Hxb].
+    destruct Hxa as [<-|[]]. destruct Hxb as [E|[]]. inversion E.
+    unfold ins in Ha, Hb. apply filter_In in Ha, Hb.
+    apply (NoDup_fst_inj t); try tauto. unfold t. rewrite tag_from_fst. apply seq_NoDup. congruence.
+Qed.
+
+Definition port_at (sigs : list sigt) (h : nat) (p : list Z) (m : member) : Prop :=
+  exists x, nth_error sigs h = Some x /\ In (p, m) (flat_members x) /\ m_is_port m = true.
+
+(* the assignments of a successful connect: exactly one per input leaf that is a Signal and has an output port
+   member at the same path in another argument; driven from that output at the same path and index *)
+Theorem connect_leafwise objs sigs cs :
+  (2 <= length sigs)%nat -> (forall x, In x sigs -> names_ok (top x) = true) ->
+  connect_sigs objs sigs = Ok cs ->
+  (forall a, In a cs <->
+     exists i j p mi mj idx,
+       port_at sigs i p mi /\ is_in (m_flow mi) = true /\
+       port_at sigs j p mj /\ is_in (m_flow mj) = false /\
+       In idx (idx_paths (m_dims mi)) /\
+       is_sigr (traverse objs (i, PNs p ++ idx)) = true /\
+       a = asg_at objs i j p idx) /\
+  NoDup (map fst cs).
+Proof.
+  intros Hlen Hnames Hc. apply connect_sigs_iff in Hc; [|exact Hlen].
+  destruct Hc as (rows & Hrows & Hok & -> & _). rewrite Forall_forall in Hok.
+  assert (Hnd : NoDup (map fst rows)) by (eapply rows_nodup; eauto).
+  split.
+  - intros a. rewrite in_flat_map. split.
+    + intros (r & Hr & Ha). apply (row_asgs_mem objs r a (Hok _ Hr)) in Ha.
+      destruct Ha as (i & j & mi & mj & idx & Hi & Hip & Hii & Hj & Hjp & Hjo & Hidx & Hs & ->).
+      destruct (rows_member _ _ _ _ _ Hrows Hr Hi) as (xi & Hxi & Hini).
+      destruct (rows_member _ _ _ _ _ Hrows Hr Hj) as (xj & Hxj & Hinj).
+      exists i, j, (fst r), mi, mj, idx. unfold port_at. repeat split; eauto.
+    + intros (i & j & p & mi & mj & idx & (xi & Hxi & Hini & Hip) & Hii & (xj & Hxj & Hinj & Hjp) & Hjo & Hidx & Hs & ->).
+      destruct (rows_find _ _ _ _ _ _ Hrows Hxi Hini) as (r & Hr & Hp & Hi).
+      destruct (rows_find _ _ _ _ _ _ Hrows Hxj Hinj) as (r' & Hr' & Hp' & Hj).
+      assert (r' = r) by (apply (NoDup_fst_inj rows); auto; congruence). subst r'.
+      exists r. split; [exact Hr|]. apply (row_asgs_mem objs r _ (Hok _ Hr)). subst p.
+      exists i, j, mi, mj, idx. tauto.
+  - rewrite (@map_flat_map row asg hpath fst). apply NoDup_flat_map_intro.
+    + apply (NoDup_map_inv fst). exact Hnd.
+    + intros r Hr. apply row_asgs_keys_nodup. auto.
+    + intros ra rb x Hra Hrb Hxa Hxb.
+      apply in_map_iff in Hxa. destruct Hxa as (a & <- & Ha). apply in_map_iff in Hxb. destruct Hxb as (b & E & Hb).
+      apply (row_asgs_mem objs ra a (Hok _ Hra)) in Ha. apply (row_asgs_mem objs rb b (Hok _ Hrb)) in Hb.
+      destruct Ha as (i & j & mi & mj & idx & _ & _ & _ & _ & _ & _ & Hidx & _ & ->).
+      destruct Hb as (i' & j' & mi' & mj' & idx' & _ & _ & _ & _ & _ & _ & Hidx' & _ & ->).
+      unfold asg_at in E. cbn [fst] in E. inversion E.
+      apply pn_pi_split in H1; [|eapply idx_paths_pi; eauto|eapply idx_paths_pi; eauto].
+      apply (NoDup_fst_inj rows); auto. symmetry. tauto.
+Qed.
+
+(* ================================================================== connect: success criterion per handle *)
+Definition member_at (sigs : list sigt) (h : nat) (p : list Z) (m : member) : Prop :=
+  exists x, nth_error sigs h = Some x /\ In (p, m) (flat_members x).
+Definition cv_ok (objs : list obj) (ip op : hpath) : Prop := is_ok (connect_value objs ip op) = true.
+Definition has_in (sigs : list sigt) : Prop :=
+  exists h p m, member_at sigs h p m /\ m_is_port m = true /\ is_in (m_flow m) = true.
+Definition has_out (sigs : list sigt) : Prop :=
+  exists h p m, member_at sigs h p m /\ m_is_port m = true /\ is_in (m_flow m) = false.
+
+Record connectable (objs : list obj) (sigs : list sigt) : Prop := {
+  (* no member is missing anywhere: the sorted member paths of all arguments coincide *)
+  c_paths : forall h h' x x', nth_error sigs h = Some x -> nth_error sigs h' = Some x' ->
+            map fst (sort (flat_members x)) = map fst (sort (flat_members x'));
+  (* a path is a port everywhere or an interface everywhere *)
+  c_kind : forall h h' p m m', member_at sigs h p m -> member_at sigs h' p m' -> m_is_port m = m_is_port m';
+  (* equal widths and initial values *)
+  c_wi : forall h h' p m m', member_at sigs h p m -> member_at sigs h' p m' ->
+         width (m_shape m) = width (m_shape m') /\ m_init m = m_init m';
+  (* at most one output per port member *)
+  c_one : forall h h' p m m', member_at sigs h p m -> member_at sigs h' p m' ->
+          m_is_port m = true -> m_is_port m' = true -> is_in (m_flow m) = false -> is_in (m_flow m') = false -> h = h';
+  (* an input and the output have the same dimensions, every leaf can be reached, constants agree *)
+  c_conn : forall h h' p m m', member_at sigs h p m -> member_at sigs h' p m' ->
+           m_is_port m = true -> is_in (m_flow m) = true -> m_is_port m' = true -> is_in (m_flow m') = false ->
+           m_dims m' = m_dims m /\
+           forall idx, In idx (idx_paths (m_dims m')) -> cv_ok objs (h, PNs p ++ idx) (h', PNs p ++ idx)
+}.
+
+Lemma dims_eqb_refl' d : dims_eqb d d = true. Proof. apply dims_eqb_refl. Qed.
+
+Lemma connect_in_ok_iff objs p o i :
+  is_ok (connect_in objs p o i) = true <->
+  m_dims (snd o) = m_dims (snd i) /\
+  forall idx, In idx (idx_paths (m_dims (snd o))) -> cv_ok objs (fst i, PNs p ++ idx) (fst o, PNs p ++ idx).
+Proof.
+  unfold connect_in, cv_ok. destruct (dims_eqb _ _) eqn:Ed.
+  - apply dims_eqb_eq in Ed. split.
+    + intros H. split; [exact Ed|]. destruct (concat_res _) as [r|] eqn:E; [|discriminate].
+      apply concat_res_map_iff in E. destruct E as [Hok _]. exact Hok.
+    + intros [_ H]. destruct (concat_res _) as [r|] eqn:E; [reflexivity|]. exfalso.
+      assert (G : exists r, concat_res (map (fun idx => connect_value objs (fst i, PNs p ++ idx) (fst o, PNs p ++ idx))
+                                          (idx_paths (m_dims (snd o)))) = Ok r).
+      { eexists. apply concat_res_map_iff. split; [exact H|reflexivity]. }
+      destruct G as [r G]. unfold PNs in G. congruence.
+  - split; [discriminate|]. intros [E _]. rewrite E, dims_eqb_refl in Ed. discriminate.
+Qed.
+
+Lemma rows_fst sigs rows h x :
+  rows_of sigs = Some rows -> nth_error sigs h = Some x -> map fst (sort (flat_members x)) = map fst rows.
+Proof.
+  unfold rows_of. intros Ht Hx.
+  assert (El : nth_error (sorted_lists sigs) h = Some (sort (flat_members x))).
+  { unfold sorted_lists. exact (map_nth_error (fun x => sort (flat_members x)) h sigs Hx). }
+  destruct (sorted_lists sigs) as [|f0 rest]; [destruct h; discriminate|].
+  destruct (transpose_col _ _ _ Ht) as [_ Hc]. apply (col_fst h). apply Hc. exact El.
+Qed.
+
+Lemma nonempty_filter {A} (f : A -> bool) l : nonempty (filter f l) = true <-> exists a, In a l /\ f a = true.
+Proof.
+  split.
+  - destruct (filter f l) as [|a r] eqn:E; [discriminate|]. intros _. exists a. apply filter_In. rewrite E. left; reflexivity.
+  - intros (a & Ha & Hf). destruct (filter f l) as [|b r] eqn:E; [|reflexivity].
+    assert (In a (filter f l)) by (apply filter_In; auto). rewrite E in H. destruct H.
+Qed.
+
+Lemma rows_has_in sigs rows : rows_of sigs = Some rows -> (existsb row_has_in rows = true <-> has_in sigs).
+Proof.
+  intros Hr. rewrite existsb_exists. split.
+  - intros (r & Hin & H). unfold row_has_in in H. apply nonempty_filter in H. destruct H as ([h m] & Ht & Hp).
+    apply in_tags in Ht. apply in_port_iff in Hp. destruct (rows_member _ _ _ _ _ Hr Hin Ht) as (x & Hx & Hm).
+    exists h, (fst r), m. unfold member_at. cbn [snd] in Hp. split; [eauto|tauto].
+  - intros (h & p & m & (x & Hx & Hm) & Hp & Hi). destruct (rows_find _ _ _ _ _ _ Hr Hx Hm) as (r & Hin & _ & Hn).
+    exists r. split; [exact Hin|]. unfold row_has_in. apply nonempty_filter. exists (h, m).
+    split; [apply in_tags; exact Hn|apply in_port_iff; auto].
+Qed.
+
+Lemma rows_has_out sigs rows : rows_of sigs = Some rows -> (existsb row_has_out rows = true <-> has_out sigs).
+Proof.
+  intros Hr. rewrite existsb_exists. split.
+  - intros (r & Hin & H). unfold row_has_out in H. apply nonempty_filter in H. destruct H as ([h m] & Ht & Hp).
+    apply in_tags in Ht. apply out_port_iff in Hp. destruct (rows_member _ _ _ _ _ Hr Hin Ht) as (x & Hx & Hm).
+    exists h, (fst r), m. unfold member_at. cbn [snd] in Hp. split; [eauto|tauto].
+  - intros (h & p & m & (x & Hx & Hm) & Hp & Hi). destruct (rows_find _ _ _ _ _ _ Hr Hx Hm) as (r & Hin & _ & Hn).
+    exists r. split; [exact Hin|]. unfold row_has_out. apply nonempty_filter. exists (h, m).
+    split; [apply in_tags; exact Hn|apply out_port_iff; auto].
+Qed.
+
+Lemma no_out_no_asgs objs rows : existsb row_has_out rows = false -> flat_map (row_asgs objs) rows = [].
+Proof.
+  induction rows as [|r rows IH]; simpl; [reflexivity|]. intros H. apply orb_false_elim in H. destruct H as [H1 H2].
+  rewrite (IH H2), app_nil_r. unfold row_asgs, row_asgs_. unfold row_has_out in H1.
+  destruct (filter is_out_port (tag_from 0 (snd r))); [reflexivity|discriminate].
+Qed.
+
+Theorem connect_sigs_ok_iff objs sigs :
+  (2 <= length sigs)%nat -> (forall x, In x sigs -> names_ok (top x) = true) ->
+  ((exists cs, connect_sigs objs sigs = Ok cs) <-> connectable objs sigs /\ (has_in sigs -> has_out sigs)).
+Proof.
+  intros Hlen Hnames. split.
+  - intros [cs Hc]. apply connect_sigs_iff in Hc; [|exact Hlen].
+    destruct Hc as (rows & Hrows & Hok & -> & Hb). rewrite Forall_forall in Hok.
+    assert (Hnd : NoDup (map fst rows)) by (eapply rows_nodup; eauto).
+    assert (Hsame : forall h h' p m m', member_at sigs h p m -> member_at sigs h' p m' ->
+              exists r, In r rows /\ fst r = p /\ nth_error (snd r) h = Some m /\ nth_error (snd r) h' = Some m').
+    { intros h h' p m m' (x & Hx & Hm) (x' & Hx' & Hm').
+      destruct (rows_find _ _ _ _ _ _ Hrows Hx Hm) as (r & Hr & Hp & Hn).
+      destruct (rows_find _ _ _ _ _ _ Hrows Hx' Hm') as (r' & Hr' & Hp' & Hn').
+      assert (r' = r) by (apply (NoDup_fst_inj rows); auto; congruence). subst r'. eauto. }
+    split; [constructor|].
+    + intros h h' x x' Hx Hx'. rewrite (rows_fst _ _ _ _ Hrows Hx), (rows_fst _ _ _ _ Hrows Hx'). reflexivity.
+    + intros h h' p m m' H1 H2. destruct (Hsame _ _ _ _ _ H1 H2) as (r & Hr & _ & Hn & Hn').
+      destruct (Hok _ Hr) as ([Hk|Hk] & _); rewrite Forall_forall in Hk;
+        specialize (Hk _ (nth_error_In _ _ Hn)) as K1; specialize (Hk _ (nth_error_In _ _ Hn')) as K2.
+      * unfold m_is_iface in K1, K2. destruct (m_is_port m), (m_is_port m'); auto; discriminate.
+      * congruence.
+    + intros h h' p m m' H1 H2. destruct (Hsame _ _ _ _ _ H1 H2) as (r & Hr & _ & Hn & Hn').
+      destruct (Hok _ Hr) as (_ & Hu & _). apply Hu; eapply nth_error_In; eauto.
+    + intros h h' p m m' H1 H2 P1 P2 O1 O2. destruct (Hsame _ _ _ _ _ H1 H2) as (r & Hr & _ & Hn & Hn').
+      destruct (Hok _ Hr) as (_ & _ & Hone & _).
+      assert (E : (h, m) = (h', m')); [|inversion E; reflexivity].
+      apply Hone; apply filter_In; (split; [apply in_tags; assumption|apply out_port_iff; auto]).
+    + intros h h' p m m' H1 H2 P1 I1 P2 O2. destruct (Hsame _ _ _ _ _ H1 H2) as (r & Hr & Hp & Hn & Hn').
+      destruct (Hok _ Hr) as (_ & _ & _ & Hc).
+      assert (G : is_ok (connect_in objs (fst r) (h', m') (h, m)) = true).
+      { apply Hc; apply filter_In; (split; [apply in_tags; assumption|]); [apply out_port_iff|apply in_port_iff]; auto. }
+      apply connect_in_ok_iff in G. cbn [fst snd] in G. rewrite Hp in G. exact G.
+    + intros Hin. apply (rows_has_in _ _ Hrows) in Hin. rewrite Hin in Hb.
+      destruct (existsb row_has_out rows) eqn:Eo; [apply (rows_has_out _ _ Hrows); exact Eo|].
+      rewrite (no_out_no_asgs _ _ Eo) in Hb. discriminate.
+  - intros [Hc Hio].
+    destruct (sorted_lists sigs) as [|f0 rest] eqn:Es.
+    { destruct sigs; [simpl in Hlen; lia|discriminate]. }
+    assert (Hal : Forall (fun l => map fst l = map fst f0) rest).
+    { apply Forall_forall. intros l Hl. apply In_nth_error in Hl. destruct Hl as [h Hh].
+      assert (E0 : nth_error (sorted_lists sigs) 0 = Some f0) by (rewrite Es; reflexivity).
+      assert (Eh : nth_error (sorted_lists sigs) (S h) = Some l) by (rewrite Es; exact Hh).
+      unfold sorted_lists in E0, Eh. apply nth_error_map_inv in E0, Eh.
+      destruct E0 as (x0 & Hx0 & ->). destruct Eh as (x & Hx & ->). apply (c_paths _ _ Hc _ _ _ _ Hx Hx0). }
+    destruct (transpose_some _ _ Hal) as [rows Ht].
+    assert (Hrows : rows_of sigs = Some rows) by (unfold rows_of; rewrite Es; exact Ht).
+    assert (Hmem : forall r h m, In r rows -> nth_error (snd r) h = Some m -> member_at sigs h (fst r) m).
+    { intros r h m Hr Hn. destruct (rows_member _ _ _ _ _ Hrows Hr Hn) as (x & Hx & Hm). exists x. auto. }
+    assert (Hok : Forall (row_ok objs) rows).
+    { apply Forall_forall. intros r Hr. unfold row_ok, row_ok_. split; [|split; [|split]].
+      - destruct (snd r) as [|m0 ms] eqn:Er; [left; constructor|].
+        assert (H0 : member_at sigs 0 (fst r) m0) by (apply Hmem; [exact Hr|rewrite Er; reflexivity]).
+        assert (Hall : forall m, In m (m0 :: ms) -> m_is_port m = m_is_port m0).
+        { intros m Hm. apply In_nth_error in Hm. destruct Hm as [h Hh]. rewrite <- Er in Hh.
+          apply (c_kind _ _ Hc h 0%nat (fst r)); auto. }
+        destruct (m_is_port m0) eqn:E0; [right|left]; apply Forall_forall; intros m Hm; specialize (Hall m Hm).
+        + exact Hall.
+        + unfold m_is_iface. rewrite Hall. reflexivity.
+      - intros m m' Hm Hm'. apply In_nth_error in Hm, Hm'. destruct Hm as [h Hh], Hm' as [h' Hh'].
+        apply (c_wi _ _ Hc h h' (fst r)); auto.
+      - intros [h m] [h' m'] Ho Ho'. apply filter_In in Ho, Ho'. destruct Ho as [Ht1 Hp1], Ho' as [Ht2 Hp2].
+        apply out_port_iff in Hp1, Hp2. cbn [snd] in Hp1, Hp2.
+        assert (E : h = h').
+        { apply in_tags in Ht1, Ht2. apply (c_one _ _ Hc h h' (fst r) m m'); auto; tauto. }
+        subst h'. apply (NoDup_fst_inj (tag_from 0 (snd r))); auto. rewrite tag_from_fst. apply seq_NoDup.
+      - intros [h' m'] [h m] Ho Hi. apply filter_In in Ho, Hi. destruct Ho as [Ht1 Hp1], Hi as [Ht2 Hp2].
+        apply out_port_iff in Hp1. apply in_port_iff in Hp2. cbn [snd] in Hp1, Hp2. apply in_tags in Ht1, Ht2.
+        apply connect_in_ok_iff. cbn [fst snd].
+        apply (c_conn _ _ Hc h h' (fst r) m m'); auto; tauto. }
+    eexists. apply connect_sigs_iff; [exact Hlen|]. exists rows. split; [exact Hrows|]. split; [exact Hok|].
+    split; [reflexivity|].
+    destruct (existsb row_has_out rows) eqn:Eo; [rewrite andb_false_r; reflexivity|].
+    destruct (existsb row_has_in rows) eqn:Ei; [|rewrite andb_false_r; reflexivity].
+    apply (rows_has_in _ _ Hrows) in Ei. apply Hio in Ei. apply (rows_has_out _ _ Hrows) in Ei. congruence.
+Qed.
+
+(* ================================================================== compliant objects can be traversed *)
+Definition is_leaf (o : obj) : bool := match o with OSig _ _ _ | OConst _ _ => true | _ => false end.
+
+Lemma all_res_inv {A} (f : A -> res bool) l : all_res true f l = Ok true -> forall a, In a l -> f a = Ok true.
+Proof.
+  induction l as [|x l IH]; simpl; intros H a Ha; [destruct Ha|].
+  destruct (f x) as [[|]|] eqn:E; try discriminate. destruct Ha as [<-|Ha]; auto.
+Qed.
+
+Lemma check_dims_trav chk dims : forall v,
+  check_dims true chk dims v = Ok true -> (forall u, chk u = Ok true -> is_leaf u = true) ->
+  forall idx, In idx (idx_paths dims) -> exists leaf, trav v idx = Ok leaf /\ is_leaf leaf = true.
+Proof.
+  induction dims as [|d rest IH]; intros v Hc Hl idx Hidx; simpl in *.
+  - destruct Hidx as [<-|[]]. simpl. eauto.
+  - destruct v; try discriminate. destruct (Nat.eqb (length l) d) eqn:El; [|discriminate]. apply Nat.eqb_eq in El.
+    apply in_flat_map in Hidx. destruct Hidx as (i & Hi & Hidx). apply in_map_iff in Hidx. destruct Hidx as (r & <- & Hr).
+    apply in_seq in Hi. simpl. destruct (nth_error l i) as [u|] eqn:En; [|apply nth_error_None in En; lia].
+    apply (IH u); auto. apply (all_res_inv _ _ Hc). eapply nth_error_In; eauto.
+Qed.
+
+Lemma flat_m_pre_cons m : forall fl a pre n,
+  flat_m fl (a :: pre) n m = map (fun e => (a :: fst e, snd e)) (flat_m fl pre n m).
+Proof.
+  induction m as [f sh i d | f w ms d IH] using member_ind2; intros fl a pre n.
+  - reflexivity.
+  - cbn [flat_m map fst snd app]. f_equal. rewrite map_flat_map.
+    eapply flat_map_ext_Forall; [exact IH|]. intros nm H. apply H.
+Qed.
+
+Lemma m_dims_flipm fl m : m_dims (flipm fl m) = m_dims m.
+Proof. destruct fl, m; reflexivity. Qed.
+Lemma m_is_port_flipm fl m : m_is_port (flipm fl m) = m_is_port m.
+Proof. destruct fl, m; reflexivity. Qed.
+
+Lemma compl_trav m : forall fl c, nodims_m m = true -> compl_m true fl m c = Ok true ->
+  match m with
+  | Port _ _ _ _ => is_leaf c = true
+  | Iface f w ms _ =>
+      forall q mm idx, In (q, mm) (flat_ms (sub_flag fl f w) [] ms) -> m_is_port mm = true ->
+        In idx (idx_paths (m_dims mm)) -> exists leaf, trav c (PNs q ++ idx) = Ok leaf /\ is_leaf leaf = true
+  end.
+Proof.
+  induction m as [f sh i d | f w ms d IH] using member_ind2; intros fl c Hnd Hc.
+  - simpl in Hc. destruct c; try discriminate; reflexivity.
+  - intros q mm idx Hin Hport Hidx. cbn [compl_m] in Hc. set (g := sub_flag fl f w) in *.
+    destruct (obj_sig c) as [y|]; [|discriminate]. destruct (negb (sig_eqb (g, ms) y)); [discriminate|].
+    cbn [fst] in Hc. unfold flat_ms in Hin. apply in_flat_map in Hin. destruct Hin as ([n m1] & Hnm & Hin).
+    cbn [fst snd] in Hin. pose proof (all_res_inv _ _ Hc _ Hnm) as Hf. cbn [fst snd] in Hf.
+    cbn [nodims_m] in Hnd. rewrite forallb_forall in Hnd. specialize (Hnd _ Hnm). cbn [snd] in Hnd.
+    apply andb_prop in Hnd. destruct Hnd as [Hd1 Hd2].
+    rewrite Forall_forall in IH. specialize (IH _ Hnm). cbn [snd] in IH.
+    destruct (obj_get c n) as [c1| |] eqn:Eg; try discriminate.
+    destruct m1 as [f1 sh1 i1 d1 | f1 w1 ms1 d1].
+    + (* a port of this interface *)
+      simpl in Hin. destruct Hin as [E|[]]. inversion E; subst q mm. simpl. rewrite Eg.
+      assert (Ed : m_dims (flipm g (Port f1 sh1 i1 d1)) = d1) by (destruct g; reflexivity).
+      rewrite Ed in Hidx. cbn [m_dims] in Hf.
+      apply (check_dims_trav _ _ _ Hf); [|exact Hidx].
+      intros u Hu. exact (IH g u eq_refl Hu).
+    + (* through a nested interface (no dimensions) *)
+      cbn [m_is_port m_dims orb] in Hd1. destruct d1; [|discriminate]. cbn [m_dims check_dims] in Hf.
+      cbn [flat_m] in Hin. destruct Hin as [E|Hin].
+      * inversion E; subst. destruct g; discriminate.
+      * apply in_flat_map in Hin. destruct Hin as ([n2 m2] & Hnm2 & Hin). cbn [fst snd app] in Hin.
+        rewrite flat_m_pre_cons in Hin. apply in_map_iff in Hin. destruct Hin as ([q' e'] & E & Hin).
+        cbn [fst snd] in E. inversion E; subst q mm.
+        specialize (IH g c1 Hd2 Hf). cbn beta iota in IH.
+        destruct (IH q' e' idx) as (leaf & Ht & Hl); auto.
+        { unfold flat_ms. apply in_flat_map. exists (n2, m2). auto. }
+        exists leaf. split; [|exact Hl]. simpl. rewrite Eg. exact Ht.
+Qed.
+
+Lemma sub_flag_top w : sub_flag false FOut w = w.
+Proof. destruct w; reflexivity. Qed.
+
+Theorem compliant_traversable x o q mm idx :
+  nodims_sig x = true -> is_compliant x o = Ok true ->
+  In (q, mm) (flat_members x) -> m_is_port mm = true -> In idx (idx_paths (m_dims mm)) ->
+  exists leaf, trav o (PNs q ++ idx) = Ok leaf /\ is_leaf leaf = true.
+Proof.
+  intros Hn Hc Hin Hp Hidx. pose proof (compl_trav (top x) false o Hn Hc) as H. cbn [top] in H.
+  rewrite sub_flag_top in H. apply (H q mm idx); auto.
+Qed.
+
+(* ================================================================== connect on compliant arguments *)
+Definition const_ok (objs : list obj) (ip op : hpath) : Prop :=
+  forall sh v, traverse objs ip = Ok (OConst sh v) -> exists sh', traverse objs op = Ok (OConst sh' v).
+
+Lemma cv_ok_leaf objs ip op li lo :
+  traverse objs ip = Ok li -> is_leaf li = true -> traverse objs op = Ok lo -> is_leaf lo = true ->
+  (cv_ok objs ip op <-> const_ok objs ip op).
+Proof.
+  intros Hi Li Ho Lo. unfold cv_ok, const_ok, connect_value. rewrite Hi, Ho.
+  destruct li; try discriminate.
+  - split; [intros _ sh' v E; discriminate|reflexivity].
+  - destruct lo; try discriminate.
+    + split; [discriminate|]. intros H. destruct (H _ _ eq_refl) as [sh' E]. discriminate.
+    + split.
+      * destruct (v =? v0) eqn:E; [|discriminate]. apply Z.eqb_eq in E. subst. intros _ sh1 v1 E1. inversion E1; subst. eauto.
+      * intros H. destruct (H _ _ eq_refl) as [sh' E]. inversion E; subst. rewrite Z.eqb_refl. reflexivity.
+Qed.
+
+Record connectable_with (okp : hpath -> hpath -> Prop) (sigs : list sigt) : Prop := {
+  k_paths : forall h h' x x', nth_error sigs h = Some x -> nth_error sigs h' = Some x' ->
+            map fst (sort (flat_members x)) = map fst (sort (flat_members x'));
+  k_kind : forall h h' p m m', member_at sigs h p m -> member_at sigs h' p m' -> m_is_port m = m_is_port m';
+  k_wi : forall h h' p m m', member_at sigs h p m -> member_at sigs h' p m' ->
+         width (m_shape m) = width (m_shape m') /\ m_init m = m_init m';
+  k_one : forall h h' p m m', member_at sigs h p m -> member_at sigs h' p m' ->
+          m_is_port m = true -> m_is_port m' = true -> is_in (m_flow m) = false -> is_in (m_flow m') = false -> h = h';
+  k_conn : forall h h' p m m', member_at sigs h p m -> member_at sigs h' p m' ->
+           m_is_port m = true -> is_in (m_flow m) = true -> m_is_port m' = true -> is_in (m_flow m') = false ->
+           m_dims m' = m_dims m /\
+           forall idx, In idx (idx_paths (m_dims m')) -> okp (h, PNs p ++ idx) (h', PNs p ++ idx)
+}.
+
+Lemma connectable_with_iff (P Q : hpath -> hpath -> Prop) sigs :
+  (forall h h' p m m' idx, member_at sigs h p m -> member_at sigs h' p m' ->
+      m_is_port m = true -> m_is_port m' = true -> m_dims m' = m_dims m -> In idx (idx_paths (m_dims m')) ->
+      (P (h, PNs p ++ idx) (h', PNs p ++ idx) <-> Q (h, PNs p ++ idx) (h', PNs p ++ idx))) ->
+  connectable_with P sigs -> connectable_with Q sigs.
+Proof.
+  intros HPQ [H1 H2 H3 H4 H5]. constructor; auto.
+  intros h h' p m m' M1 M2 P1 I1 P2 O2. destruct (H5 _ _ _ _ _ M1 M2 P1 I1 P2 O2) as [Hd Hk]. split; [exact Hd|].
+  intros idx Hidx. apply (HPQ h h' p m m' idx); auto.
+Qed.
+
+Lemma connectable_is_with objs sigs : connectable objs sigs <-> connectable_with (cv_ok objs) sigs.
+Proof. split; intros [H1 H2 H3 H4 H5]; constructor; auto. Qed.
+
+Definition args_ok (objs : list obj) (sigs : list sigt) : Prop :=
+  Forall2 (fun o x => obj_sig o = Some x /\ is_compliant x o = Ok true) objs sigs.
+
+Lemma check_args_iff objs sigs : check_args objs = Ok sigs <-> args_ok objs sigs.
+Proof.
+  split; [apply check_args_compliant|]. induction 1 as [|o x objs sigs [Hs Hc] _ IH]; simpl; [reflexivity|].
+  rewrite Hs, Hc, IH. reflexivity.
+Qed.
+
+Lemma Forall2_nth_r {A B} (R : A -> B -> Prop) l l' h b :
+  Forall2 R l l' -> nth_error l' h = Some b -> exists a, nth_error l h = Some a /\ R a b.
+Proof.
+  intros H. revert h. induction H; intros [|h] Hh; simpl in *; try discriminate.
+  - inversion Hh; subst. eauto.
+  - apply IHForall2. exact Hh.
+Qed.
+
+Lemma args_traversable objs sigs h p m idx :
+  args_ok objs sigs -> (forall x, In x sigs -> nodims_sig x = true) ->
+  member_at sigs h p m -> m_is_port m = true -> In idx (idx_paths (m_dims m)) ->
+  exists leaf, traverse objs (h, PNs p ++ idx) = Ok leaf /\ is_leaf leaf = true.
+Proof.
+  intros Ha Hn (x & Hx & Hm) Hp Hidx. destruct (Forall2_nth_r _ _ _ _ _ Ha Hx) as (o & Ho & _ & Hc).
+  unfold traverse. cbn [fst snd]. rewrite Ho. eapply compliant_traversable; eauto.
+  apply Hn. eapply nth_error_In; eauto.
+Qed.
+
+(* the full criterion for compliant arguments without arrays of interfaces *)
+Theorem connect_ok_iff objs sigs :
+  check_args objs = Ok sigs -> (2 <= length sigs)%nat ->
+  (forall x, In x sigs -> names_ok (top x) = true) -> (forall x, In x sigs -> nodims_sig x = true) ->
+  ((exists cs, connect objs = Ok cs) <->
+   connectable_with (const_ok objs) sigs /\ (has_in sigs -> has_out sigs)).
+Proof.
+  intros Hca Hlen Hnames Hnd. unfold connect. rewrite Hca. apply check_args_iff in Hca.
+  rewrite (connect_sigs_ok_iff objs sigs Hlen Hnames), connectable_is_with.
+  assert (G : forall h h' p m m' idx, member_at sigs h p m -> member_at sigs h' p m' ->
+      m_is_port m = true -> m_is_port m' = true -> m_dims m' = m_dims m -> In idx (idx_paths (m_dims m')) ->
+      (cv_ok objs (h, PNs p ++ idx) (h', PNs p ++ idx) <-> const_ok objs (h, PNs p ++ idx) (h', PNs p ++ idx))).
+  { intros h h' p m m' idx M1 M2 P1 P2 Hd Hidx.
+    destruct (args_traversable objs sigs h p m idx Hca Hnd M1 P1) as (li & Hi & Li); [rewrite <- Hd; exact Hidx|].
+    destruct (args_traversable objs sigs h' p m' idx Hca Hnd M2 P2 Hidx) as (lo & Ho & Lo).
+    eapply cv_ok_leaf; eauto. }
+  split; intros [Hc Hio]; (split; [|exact Hio]); eapply connectable_with_iff; try exact Hc.
+  - exact G.
+  - intros h h' p m m' idx M1 M2 P1 P2 Hd Hidx. symmetry. apply (G h h' p m m' idx); auto.
+Qed.
+
+(* what the assignments are *)
+Theorem connect_ok_spec objs sigs cs :
+  check_args objs = Ok sigs -> (2 <= length sigs)%nat ->
+  (forall x, In x sigs -> names_ok (top x) = true) ->
+  connect objs = Ok cs ->
+  (forall a, In a cs <->
+     exists i j p mi mj idx,
+       port_at sigs i p mi /\ is_in (m_flow mi) = true /\
+       port_at sigs j p mj /\ is_in (m_flow mj) = false /\
+       In idx (idx_paths (m_dims mi)) /\
+       is_sigr (traverse objs (i, PNs p ++ idx)) = true /\
+       a = asg_at objs i j p idx) /\
+  NoDup (map fst cs) /\
+  (* no output leaf is driven *)
+  (forall a, In a cs -> forall p mo idx, port_at sigs (fst (fst a)) p mo -> is_in (m_flow mo) = false ->
+        In idx (idx_paths (m_dims mo)) -> snd (fst a) <> PNs p ++ idx).
+Proof.
+  intros Hca Hlen Hnames Hc. unfold connect in Hc. rewrite Hca in Hc.
+  destruct (connect_leafwise objs sigs cs Hlen Hnames Hc) as [Hmem Hnd]. split; [exact Hmem|]. split; [exact Hnd|].
+  intros a Ha p mo idx (x & Hx & Hmo & Hpo) Ho Hidx E.
+  apply Hmem in Ha. destruct Ha as (i & j & p' & mi & mj & idx' & (x' & Hx' & Hmi & Hpi) & Hi & _ & _ & Hidx' & _ & ->).
+  unfold asg_at in *. cbn [fst snd] in *. rewrite Hx in Hx'. inversion Hx'; subst x'.
+  apply pn_pi_split in E; [|eapply idx_paths_pi; eauto|eapply idx_paths_pi; eauto]. destruct E as [-> ->].
+  assert (G : (p, mi) = (p, mo)).
+  { apply (NoDup_fst_inj (flat_members x)); auto. apply flat_members_nodup. apply Hnames. eapply nth_error_In; eauto. }
+  inversion G; subst. congruence.
 Qed.
